@@ -39,8 +39,8 @@ Proof. intros [sts ini rows irows h] rn path. reflexivity. Qed.
 Print Assumptions C03_snapshot_head.
 
 (* stop() / leaving a machine: one exit per region, in region order *)
-Theorem C03_stop_exits_each_region_once : forall mc children fuel ev n r rn g,
-  exit_regions mc children fuel ev n r rn g = iterM (exit_step mc children fuel ev) (seqn r n) rn g.
+Theorem C03_stop_exits_each_region_once : forall contained mc children fuel ev n r rn g,
+  exit_regions contained mc children fuel ev n r rn g = iterM (exit_step contained mc children fuel ev) (seqn r n) rn g.
 Proof. exact exit_regions_seq. Qed.
 Print Assumptions C03_stop_exits_each_region_once.
 
